@@ -389,6 +389,8 @@ func c17Type(c *core.Ctx, wt *types.Named) {
 		if n == 0 {
 			c.Missing("constructor of " + tn)
 		}
+		// other entry points with the constructor's signature (deprecated aliases) forward to it positionally
+		forwardingAliases(c, pkgSuffixOf(wt))
 		// the full-unwrap function exists
 		found := false
 		for _, fn := range p.LibFuncs(pkgSuffixOf(wt)) {
@@ -611,4 +613,65 @@ func returnsCall(fn *ssa.Function, call *ssa.Call) bool {
 		found = true
 	}
 	return found
+}
+
+// forwardingAliases: an exported function of the package whose signature is
+// identical to another exported function's and that returns that function's
+// result is an alias; it must hand over its own parameters, each in its own
+// position, on every path.
+func forwardingAliases(c *core.Ctx, pkgS string) {
+	p := c.P
+	for _, g := range p.LibFuncs(pkgS) {
+		if g.Parent() != nil || g.Signature.Recv() != nil || g.Object() == nil || !g.Object().Exported() {
+			continue
+		}
+		var calls []*ssa.Call
+		core.Instrs(g, func(in ssa.Instruction) {
+			call, ok := in.(*ssa.Call)
+			if !ok {
+				return
+			}
+			h := call.Call.StaticCallee()
+			if h == nil || h == g || h.Parent() != nil || h.Signature.Recv() != nil || !core.PkgIs(h, pkgS) || h.Object() == nil || !h.Object().Exported() {
+				return
+			}
+			if types.Identical(g.Signature, h.Signature) {
+				calls = append(calls, call)
+			}
+		})
+		if len(calls) == 0 {
+			continue
+		}
+		key := core.FuncName(g) + ":alias-forwards"
+		ok := len(calls) == 1
+		if ok {
+			call := calls[0]
+			for i, a := range call.Call.Args {
+				if core.ResolveFree(core.Strip(a)) != ssa.Value(g.Params[i]) {
+					ok = false
+				}
+			}
+			for _, r := range core.Returns(g) {
+				if !core.MustPass(core.Entry(g), r, func(in ssa.Instruction) bool { return in == ssa.Instruction(call) }) {
+					ok = false
+				}
+				for i, res := range r.Results {
+					good := core.AllOrigins(res, func(o ssa.Value) bool {
+						o = core.Strip(o)
+						if o == ssa.Value(call) && len(r.Results) == 1 {
+							return true
+						}
+						if ex, isEx := o.(*ssa.Extract); isEx && ex.Tuple == ssa.Value(call) && ex.Index == i {
+							return true
+						}
+						return false
+					})
+					if !good {
+						ok = false
+					}
+				}
+			}
+		}
+		c.Check(ok, key, g.Pos(), "the alias calls its target once with its own parameters in their positions and returns the result unchanged", "an entry point with the constructor's signature does not simply forward to it (an argument replaced, dropped or reordered, a path that skips the call, or a changed result): callers of the alias get another wrapper than callers of the constructor")
+	}
 }
